@@ -573,6 +573,47 @@ def check_fmthistory(case):
     return None
 
 
+def check_two_sources(case):
+    """`twosources <seed>`: two time-zone providers over two data files with the same zone ids (the shipped tz database
+    and the 2013b file of the test data), used one after the other in this process. What each provider's zones answer
+    must be what a fresh interpreter that only ever loaded that one file answers - wrappers, caches and memos must not
+    be shared between zones that merely have the same id."""
+    import json
+    import os
+    import random
+    import subprocess
+    import sys
+    import twosrc_child
+    seed = int(case.split(" ")[1])
+    rng = random.Random(seed)
+    repo = common_repo()
+    pa, pb = repo / "pyoda_time" / "time_zones" / "Tzdb.nzd", repo / "tests" / "test_data" / "Tzdb2013bFromNodaTime1.1.nzd"
+    if not (pa.exists() and pb.exists()):
+        return None
+    from pyoda_time.time_zones._tzdb_date_time_zone_source import TzdbDateTimeZoneSource
+    with open(pb, "rb") as f:
+        ids_b = set(TzdbDateTimeZoneSource.from_stream(f).get_ids())
+    ids = sorted(set(TzdbDateTimeZoneSource.default.get_ids()) & ids_b)
+    ids = rng.sample(ids, min(len(ids), 40))
+    probes = [(y, m) for y in (1950, 1995, 2011, 2014, 2016, 2019, 2022, 2030) for m in (1, 4, 7, 10, 11)]
+    here = os.path.dirname(os.path.abspath(twosrc_child.__file__))
+    order = [("A", pa), ("B", pb)] if rng.random() < 0.5 else [("B", pb), ("A", pa)]
+    for tag, path in order:
+        got = twosrc_child.answers(str(path), ids, probes)            # in this process, after whatever was loaded before
+        p = subprocess.run([sys.executable, os.path.join(here, "twosrc_child.py")], input=json.dumps({"path": str(path), "ids": ids, "probes": probes}),
+                           capture_output=True, text=True, timeout=300, env=dict(os.environ, PYODA_REPO=str(repo)))
+        if p.returncode != 0:
+            raise RuntimeError("child interpreter failed: " + p.stderr[-300:])
+        fresh = json.loads(p.stdout)
+        got = json.loads(json.dumps(got))
+        for zid in ids:
+            if got[zid] != fresh[zid]:
+                k = next(i for i in range(len(probes)) if got[zid][i] != fresh[zid][i])
+                return {"key": "provider-zone-depends-on-other-source", "what": f"zone {zid!r} from file {tag} ({path.name}), loaded in the order {[t for t, _ in order]}: at "
+                        f"{probes[k][0]}-{probes[k][1]:02d}-15T12:00Z it answers {got[zid][k]}; an interpreter that loaded only this file answers {fresh[zid][k]}"}
+    return None
+
+
 def check_culture_case_history(case):
     """`culturecase <Name> <name>`: what CultureInfo(name) is must not depend on whether the same culture was asked before
     under another capitalisation (the culture-data cache is keyed by the lower-cased name), and a real culture name
@@ -1149,6 +1190,7 @@ def run(ctx):
         check_cases("zone.history", zh, check_zonehist)
         ctx.evaluations += sum(len(c.split(" ")) - 3 for c in zh)
         check_cases("provider.identity", [f"provider {rng.randint(0, 10**6)} {ctx.scale(60, 400)}" for _ in range(ctx.scale(2, 5))], check_provider)
+        check_cases("provider.two-sources-same-ids", [f"twosources {rng.randint(0, 10**6)}" for _ in range(ctx.scale(1, 6))], check_two_sources)
         try:
             from pyoda_time._compatibility._culture_info import CultureInfo
             from pyoda_time._compatibility._culture_types import CultureTypes
@@ -1162,6 +1204,9 @@ def run(ctx):
             check_cases("culture.name-case-history", ["culturecase Cs-CZ cs-CZ", "culturecase FR-fr fr-FR", "culturecase Ca-ES ca-ES", "culturecase CY-GB cy-GB"],
                         check_culture_case_history)
             check_cases("formatinfo.history", [f"fmthist {rng.randint(0, 10**6)}" for _ in range(ctx.scale(2, 12))], check_fmthistory)
+            import c07
+            check_cases("culture.calendar-switch-history", ["calswitch " + n for n in c07.calendar_switch_cases(ctx)[:ctx.scale(8, 60)]],
+                        lambda c: c07.oracle_calendar_switch(c.split(" ", 1)[1]))
             ctx.evaluations += 620
         else:
             ctx.note("formatinfo.cache", f"skipped: only {n_cult} cultures available (ICU stub); the bound of _Cache is covered by lru.run")
@@ -1215,7 +1260,8 @@ def gen_calhist_one(ctx, cid, length):
 
 
 CHECKS = {"barrier": None, "calhist": check_calhist, "hebhist": check_hebhist, "zonehist": check_zonehist,
-          "formatinfo": check_formatinfo, "fmthist": check_fmthistory, "fixedzone": check_fixed_zone_history, "culturecase": check_culture_case_history, "provider": check_provider, "thr": check_threads}
+          "formatinfo": check_formatinfo, "fmthist": check_fmthistory, "fixedzone": check_fixed_zone_history, "culturecase": check_culture_case_history, "provider": check_provider, "thr": check_threads,
+          "twosources": check_two_sources, "calswitch": lambda c: __import__("c07").oracle_calendar_switch(c.split(" ", 1)[1])}
 
 
 def replay_op(op, failure):
